@@ -245,7 +245,9 @@ func genPass(t *rapid.T) PassCase {
 	return PassCase{
 		Method: rapid.SampledFrom([]string{"GET", "POST", "PUT", "DELETE", "OPTIONS"}).Draw(t, "method"),
 		Path: rapid.SampledFrom([]string{"/", "/x", "/index.html", "/shimx", "/shimx/open", "/shi", "/a/shim/open", "/a/shim/data", "/Shim/open", "/shim.js",
-			"/open", "/data", "/poll", "/close", "/x/" + "y%2Fz", "/shim%2Fopen"}).Draw(t, "path"),
+			"/open", "/data", "/poll", "/close", "/x/" + "y%2Fz",
+			// paths that are not in canonical form: still outside the shim prefix, still the backend's business
+			"/a//b", "//x", "/a/./b", "/a/../b", "/files//report.txt", "/a/../shim/open", "/x/."}).Draw(t, "path"),
 		Query: rapid.SampledFrom([]string{"", "a=1", "id=7&x=%20"}).Draw(t, "query"),
 		Fields: rapid.SliceOfN(rapid.Custom(func(t *rapid.T) vh.HeaderField {
 			return vh.HeaderField{Name: rapid.SampledFrom([]string{"X-A", "Cookie", "Authorization", "Accept", "X-Websocket-Shim-Version", "Content-Type"}).Draw(t, "hn"),
@@ -260,6 +262,10 @@ func runPass(c *PassCase) vh.Outcome {
 	o := vh.Outcome{NonTrivial: strings.Contains(strings.ToLower(c.Path), "shi")}
 	if o.NonTrivial {
 		o.Classes = append(o.Classes, "near-shim-prefix")
+	}
+	if strings.Contains(c.Path, "//") || strings.Contains(c.Path, "/.") {
+		o.NonTrivial = true
+		o.Classes = append(o.Classes, "non-canonical-path")
 	}
 	type got struct {
 		method, uri, body string
